@@ -201,7 +201,17 @@ def recheck(which='missed'):
     d = json.load(open(os.path.join(OUT, 'report.json')))
     todo = d[which]
     global _RC
-    _RC = (repo,)
+    mods = [importlib.import_module('aylint.rules.c%02d' % i) for i in range(1, 21)]
+    basekeys = {}
+    for m in mods:
+        base = Run(m.PROP, 'quick', repo.root, quiet=True)
+        try:
+            common.reset_caches()
+            m.check(repo, base, 'quick')
+        except AnalysisError:
+            pass
+        basekeys[m.PROP] = {v['key'] for v in base.violations}
+    _RC = (repo, basekeys)
     with multiprocessing.get_context('fork').Pool(12) as pool:
         res = pool.map(_recheck_one, [r['job'] for r in todo])
     still = 0
@@ -221,17 +231,14 @@ def _recheck_one(job):
     repo = _RC[0]
     mods = [importlib.import_module('aylint.rules.c%02d' % i) for i in range(1, 21)]
     qual, op, idx, desc = job
-    rel, text = materialise(repo, qual, op, idx)
+    try:
+        rel, text = materialise(repo, qual, op, idx)
+    except Exception as e:  # noqa  (the tree changed since the enumeration)
+        return job, {}, {'stale': str(e)[:60]}
     r2 = repo.with_overrides({rel: text})
     killed, nov = {}, {}
     for m in mods:
-        base = Run(m.PROP, 'quick', repo.root, quiet=True)
-        try:
-            common.reset_caches()
-            m.check(repo, base, 'quick')
-        except AnalysisError:
-            pass
-        bk = {v['key'] for v in base.violations}
+        bk = _RC[1][m.PROP]
         sub = Run(m.PROP, 'quick', repo.root, quiet=True)
         try:
             common.reset_caches()
